@@ -46,9 +46,14 @@ VAL_RE = re.compile(r'⟦value(\d+)\.(\d+)⟧')
 DRAW_RE = c13.DRAW_RE
 
 
+# the base input holds lines whose names extend the name of a sampled INPUT (and one that is extended by it): a sampled value is appended to
+# the base input, it never replaces or removes other lines
+BASE_INPUT = 'Reservoir Temperature Option, 2\nBase Parameter, 1\nReservoir, 7\nReservoir Porosity Exponent, 3\n'
+
+
 def run_rows(K, code):
     found = [None] * len(OUTPUTS)
-    w = mcworld.MCWorld(OUTPUTS, found, False)
+    w = mcworld.MCWorld(OUTPUTS, found, False, base_input=BASE_INPUT)
     header = ', '.join(OUTPUTS) + ', ' + ', '.join(s[0] for s in SETTINGS) + '\n'
     w.fs['/w/MC_Result.txt'] = header
     gen = w.parent_gen.fork('worker0')
@@ -99,7 +104,9 @@ def row_checks(o):
     res['column j holds the figure printed for OUTPUT j in this iteration\'s report'] = ok
     # recorded inputs = what was appended to the simulated input, in order
     pairs = [p for p in tail.rstrip(')').strip(';').split(';') if p] if sep else []
-    sim_lines = (o['sim_text'] or '').splitlines()[1:]
+    sim_text = o['sim_text'] or ''
+    res['the simulated input is the complete base input (every line, in order) followed by the sampled values'] = sim_text.startswith(BASE_INPUT)
+    sim_lines = sim_text[len(BASE_INPUT):].splitlines() if sim_text.startswith(BASE_INPUT) else sim_text.splitlines()[BASE_INPUT.count('\n'):]
     want = [ln.partition(', ')[::2] for ln in sim_lines]
     got = [tuple(p.split(':', 1)) for p in pairs]
     res['the (name, value) pairs recorded in the row are those fed to the simulation, in order'] = [tuple(x) for x in want] == got and len(got) == len(SETTINGS)
